@@ -623,6 +623,28 @@ mutual
       pure (s ++ ss, ex && ex')
 end
 
+/-! ### the public constructors -/
+
+/-- `Text(str)` -/
+def text (s : Bytes) : Msg := Msg.ofText s
+/-- `TranslateMsg(key, with...)`: the arguments are stored as `Message` VALUES (the case `ClearString` renders plainly) -/
+def translateMsg (key : Bytes) (args : List Msg) : Msg := { Msg.zero with translate := key, args := args.map Sum.inl }
+/-- `m.SetColor(color)` -/
+def setColor (m : Msg) (c : Bytes) : Msg := { m with color := c }
+/-- `m.Append(extra...)` -/
+def append (m : Msg) (xs : List Msg) : Msg := { m with extra := m.extra ++ xs }
+
+/-! ### the translation table (`translateMap`, a package variable) -/
+
+/-- `SetLanguage(trans)`: the table `String()` / `ClearString()` use from now on is `trans` — the previous table is
+REPLACED, not merged into (the variable starts out as `en_us.Map` itself, so writing into the current table would
+overwrite the English data) -/
+def setLanguage (_cur new : Bytes → Bytes) : Bytes → Bytes := new
+
+/-- the table after a sequence of `SetLanguage` calls, starting from `init` (`en_us.Map`) -/
+def languageAfter (init : Bytes → Bytes) (steps : List (Bytes → Bytes)) : Bytes → Bytes :=
+  steps.foldl setLanguage init
+
 /-! ### chat.Type (the chat-type header of player chat packets) -/
 
 /-- the header, over the representation `α` of the two names (`Msg`; `GoVal` for the exact NBT-form codec) -/
